@@ -49,6 +49,8 @@ fn base_check(id: &str, mode: &str, level: &str) -> GridCheck {
         exhaustive: None,
         extra_env: vec![],
         known_sig: None,
+        group: 1,
+        post: None,
     }
 }
 
@@ -205,8 +207,184 @@ fn c13(tier: &str, seed: u64) -> GridCheck {
     c
 }
 
+fn c03(tier: &str, seed: u64) -> GridCheck {
+    let mut c = base_check("C03", "C03", "exploration");
+    let mut cfg = GenCfg::base(KINDS8.to_vec());
+    cfg.n = (1, 5);
+    cfg.depth = (1, 4);
+    cfg.cell = (0, 2);
+    cfg.wrappers = 0.1;
+    cfg.caps = 0.2;
+    cfg.names = 0.1;
+    cfg.handler = 0.2;
+    cfg.equal_depths = 0.3;
+    let count = if tier == "quick" { 320 } else { 4000 };
+    c.progs = sample(seed, 0x0300, count, &cfg, &|i| Some(KINDS8[i % 8]));
+    c.budget = if tier == "quick" { 24 } else { 120 };
+    c.rule = "programs: random grid programs under the eight macro kinds, unequal depths in most, `~` at generated positions. Schedules: thread-spawning macros - one gated callback per (branch, step) cell (first / middle / last callback), per step a release permutation of the active branches (all combinations when within the budget, proptest-shuffled otherwise); async / task-spawning macros - every future-returning callback awaits a gate, wake-up orders enumerated systematically (odometer over choice points) then randomised with batches and spurious polls; sequential macros - program order. Oracle: while any branch is still blocked in step k no event of a later step exists and the macro has not returned (checked by the controller at rendezvous and before the last release); over the final log every event of step k precedes every event of step k+1. A run is one (program, schedule); non-trivial = >=2 branches, >=2 steps, unequal depths or a non-identity order".to_string();
+    c
+}
+
+fn c08(tier: &str, seed: u64) -> GridCheck {
+    let mut c = base_check("C08", "C08", "exploration");
+    let mut cfg = GenCfg::base(vec!["join_spawn", "try_join_spawn", "spawn", "try_spawn"]);
+    cfg.n = (1, 6);
+    cfg.depth = (1, 4);
+    cfg.cell = (0, 2);
+    cfg.wrappers = 0.05;
+    cfg.caps = 0.1;
+    cfg.names = 0.1;
+    cfg.handler = 0.2;
+    cfg.equal_depths = 0.15;
+    let count = if tier == "quick" { 240 } else { 3000 };
+    let macs = ["join_spawn", "try_join_spawn", "spawn", "try_spawn"];
+    c.progs = sample(seed, 0x0800, count, &cfg, &|i| Some(macs[i % 4]));
+    c.budget = if tier == "quick" { 24 } else { 120 };
+    c.rule = "programs: random grid programs under join_spawn / try_join_spawn / spawn / try_spawn, 1-6 branches, depth profiles with single-active-branch steps; the macro is evaluated on a harness thread that is unnamed or named (`main`, `w_join_3` = the name a nested spawn macro's branch thread has, a name with odd characters). Schedules as C03 (gated callbacks, release permutations). Oracle: rendezvous - with all gates of a multi-branch step held closed every active branch arrives (distinct threads, none the caller's; a branch waiting for a sibling could never arrive); every callback of branch i in such a step runs on a thread named `<caller>_join_<i>` / `join_<i>`; a single active branch runs on the calling thread; the caller has not continued before the last release. Non-trivial = a multi-branch step together with a single-active step or a nested-style caller name".to_string();
+    c.assumptions.push("nesting of spawn macros is represented by evaluating the macro on a thread that carries the name a nested branch thread would have (real nesting is exercised by C17)".to_string());
+    c
+}
+
+fn c09(tier: &str, seed: u64) -> GridCheck {
+    let mut c = base_check("C09", "C09", "exploration");
+    let macs = ["join_async", "try_join_async", "join_async_spawn", "try_join_async_spawn", "async_spawn", "try_async_spawn"];
+    let mut cfg = GenCfg::base(macs.to_vec());
+    cfg.n = (1, 4);
+    cfg.depth = (1, 3);
+    cfg.cell = (0, 2);
+    cfg.wrappers = 0.1;
+    cfg.caps = 0.15;
+    cfg.names = 0.1;
+    cfg.handler = 0.3;
+    cfg.handler_block = 0.7;
+    let count = if tier == "quick" { 240 } else { 3000 };
+    c.progs = sample(seed, 0x0900, count, &cfg, &|i| Some(macs[i % 6]));
+    c.budget = if tier == "quick" { 48 } else { 256 };
+    c.rule = "programs: random grid programs under the six async macro names; every future-returning harness callback (initial values, and_then / or_else / then / `->` callbacks, handlers) awaits a gate. Schedules: wake-up orders enumerated systematically (odometer over the choice points met), then random orders with batches (two gates opened before the next poll) and spurious polls; gate selection all / first / last of each cell. Oracle under the deterministic executor: (a) building - and dropping - the future logs nothing; (b) once a step starts every active branch reaches its first pending point; (c) opening a gate notifies the macro's future (non-spawn) ; (d) the branch whose gate opened reaches its next pending point although siblings are pending; (e) the future is never left pending with every gate open and no wake-up outstanding, and completes with the model's value. Non-trivial = >=2 branches, >=2 decisions, gates opened out of index order".to_string();
+    c
+}
+
+pub const CLASSES: [[&str; 3]; 4] = [
+    ["join", "join_spawn", "spawn"],
+    ["try_join", "try_join_spawn", "try_spawn"],
+    ["join_async", "join_async_spawn", "async_spawn"],
+    ["try_join_async", "try_join_async_spawn", "try_async_spawn"],
+];
+
+/// C07 cross-case oracle: groups of three consecutive cases = (plain, spawn, alias)
+pub fn c07_post(progs: &[Prog], reports: &[serde_json::Value]) -> Vec<(usize, serde_json::Value)> {
+    use serde_json::json;
+    let mut by_case: std::collections::HashMap<usize, &serde_json::Value> = std::collections::HashMap::new();
+    for r in reports {
+        by_case.insert(r["case"].as_u64().unwrap_or(0) as usize, r);
+    }
+    let mut out = Vec::new();
+    for g in 0..progs.len() / 3 {
+        let (ip, is, ia) = (3 * g, 3 * g + 1, 3 * g + 2);
+        let (Some(rp), Some(rs), Some(ra)) = (by_case.get(&ip), by_case.get(&is), by_case.get(&ia)) else { continue };
+        let kind = progs[ip].kind();
+        let (dp, ds, da) = (rp["c07"]["digests"].as_array(), rs["c07"]["digests"].as_array(), ra["c07"]["digests"].as_array());
+        let (Some(dp), Some(ds), Some(da)) = (dp, ds, da) else { continue };
+        if dp.len() != ds.len() || ds.len() != da.len() {
+            out.push((ia, json!({"oracles": ["agreement"], "details": [format!("different numbers of runs in one class: {} {} {}", dp.len(), ds.len(), da.len())]})));
+            continue;
+        }
+        let mut bad: Option<(usize, String)> = None;
+        for j in 0..dp.len() {
+            let (p, s, a) = (&dp[j], &ds[j], &da[j]);
+            if p["out"] != s["out"] {
+                bad = Some((is, format!("plan {}: {}! gives {} but {}! gives {}", p["bad"], progs[ip].mac, p["out_text"], progs[is].mac, s["out_text"])));
+                break;
+            }
+            if s["out"] != a["out"] {
+                bad = Some((ia, format!("plan {}: {}! gives {} but its alias {}! gives {}", p["bad"], progs[is].mac, s["out_text"], progs[ia].mac, a["out_text"])));
+                break;
+            }
+            if s["full"] != a["full"] || s["sig"] != a["sig"] {
+                bad = Some((ia, format!("plan {}: alias {}! differs from {}! in callback sequences or thread signature", p["bad"], progs[ia].mac, progs[is].mac)));
+                break;
+            }
+            // a try-async step that fails may drop siblings half way (plain) or let tasks finish (spawned)
+            let partial_ok = kind.is_async && kind.is_try && p["failed"] == true;
+            if !partial_ok && p["full"] != s["full"] {
+                bad = Some((is, format!("plan {}: per-branch callback sequences of {}! and {}! differ", p["bad"], progs[ip].mac, progs[is].mac)));
+                break;
+            }
+        }
+        if bad.is_none() && rs["c07"]["spawn_sig"] != ra["c07"]["spawn_sig"] {
+            bad = Some((ia, format!("alias {}! reaches {} pending points within the first poll, {}! reaches {}: one spawns tasks, the other does not", progs[ia].mac, ra["c07"]["spawn_sig"], progs[is].mac, rs["c07"]["spawn_sig"])));
+        }
+        if let Some((i, d)) = bad {
+            out.push((i, json!({"oracles": ["agreement"], "details": [d]})));
+        }
+    }
+    out
+}
+
+pub fn post_for(id: &str) -> Option<fn(&[Prog], &[serde_json::Value]) -> Vec<(usize, serde_json::Value)>> {
+    match id {
+        "C07" => Some(c07_post),
+        _ => None,
+    }
+}
+
+fn c07(tier: &str, seed: u64) -> GridCheck {
+    let mut c = base_check("C07", "C07", "exploration");
+    let mut cfg = GenCfg::base(vec!["join"]);
+    cfg.n = (1, 5);
+    cfg.depth = (1, 3);
+    cfg.cell = (0, 3);
+    cfg.wrappers = 0.15;
+    cfg.caps = 0.15;
+    cfg.names = 0.15;
+    cfg.handler = 0.3;
+    cfg.recover = 0.6;
+    let count = if tier == "quick" { 200 } else { 2000 };
+    let mut progs = Vec::new();
+    let base = sample(seed, 0x0700, count, &cfg, &|i| Some(CLASSES[i % 4][0]));
+    for p in base {
+        let class = CLASSES.iter().find(|c| c[0] == p.mac).unwrap();
+        for m in class {
+            let mut q = p.clone();
+            q.mac = m.to_string();
+            progs.push(q);
+        }
+    }
+    c.progs = progs;
+    c.group = 3;
+    c.post = Some(c07_post);
+    c.batch_size = 480;
+    c.budget = if tier == "quick" { 64 } else { 256 };
+    c.rule = "programs: random grid programs (values Send + 'static, branches do not communicate), each rendered under the three macro names of its class {plain, spawn, alias}; inputs: the same enumerated / sampled failure plans for all three. Oracle (metamorphic, no model involved): equal results across the three; equal per-branch callback sequences between plain and spawn (except in a failing step of a try-async macro); alias and canonical spawn macro equal in result, callback sequences, thread-name signature (sync) and first-poll arrival count (async: spawned vs not spawned); the expected result type is ascribed, so an alias wired to the wrong configuration fails to compile. A run is one (program, macro name, plan); non-trivial = >=2 branches and a multi-branch step".to_string();
+    c
+}
+
+fn c18(tier: &str, seed: u64) -> GridCheck {
+    let mut c = base_check("C18", "C18", "fault_enumeration");
+    let mut cfg = GenCfg::base(ALL12.to_vec());
+    cfg.n = (1, 4);
+    cfg.depth = (1, 3);
+    cfg.cell = (0, 2);
+    cfg.wrappers = 0.1;
+    cfg.caps = 0.25;
+    cfg.names = 0.1;
+    cfg.handler = 0.4;
+    cfg.handler_block = 0.5;
+    let count = if tier == "quick" { 192 } else { 1920 };
+    c.progs = sample(seed, 0x1800, count, &cfg, &|i| Some(ALL12[i % 12]));
+    c.budget = if tier == "quick" { 40 } else { 200 };
+    c.rule = "programs: random grid programs under all 12 macro names; faults: every single evaluation event of the program under the all-succeed plan (initial value, operand expression, callback call, block capture, handler expression, handler call) in turn panics with a typed payload. Sync / thread-spawning macros: each injected evaluation runs in a child process of the generated binary under catch_unwind; async macros: deterministic executor with gated callbacks and a wake-up order derived from the position, each poll under catch_unwind. Oracle: the panic is observed by the caller (macro expression / poll panics); no event of a later step than the injected one exists; async: the future is never left pending with every gate open and no wake-up outstanding. A run is one (program, injection point); non-trivial = injection in a multi-branch step of a spawn variant, or in a step > 0".to_string();
+    c.assumptions.push("sync macros: a child that does not return within 20 s is reported as inconclusive (exit 2), not as a violation".to_string());
+    c
+}
+
 pub fn build(id: &str, tier: &str, seed: u64) -> Option<GridCheck> {
     Some(match id {
+        "C07" => c07(tier, seed),
+        "C18" => c18(tier, seed),
+        "C03" => c03(tier, seed),
+        "C08" => c08(tier, seed),
+        "C09" => c09(tier, seed),
         "C10" => c10(tier, seed),
         "C11" => c11(tier, seed),
         "C12" => c12(tier, seed),
